@@ -402,7 +402,7 @@ func (c09) Run(u fw.Unit) fw.Result {
 func (c09) Describe(tier string) fw.Description {
 	return fw.Description{
 		Level: "model_checking",
-		Rule: "(a) all key sequences of length 1..L over <=3 keys (canonical up to key renaming) x N in {1,2,3[,4]} x 1|2 grouping columns (also tuples with a missing column: (a,a), (a,-), (-,a)) x eager|lazy feed, plus pauses of 1.5 s / 25 s of virtual time after every row without and with STATETTL=1m (sequences in which a key idles >= TTL are outside the property and skipped), each executed on the real engine (streamsql.New/Execute/Emit, sync sink) under the deterministic schedule with the virtual clock and compared with the per-key batching reference (ids via collect, count, first/last); " +
+		Rule: "(a) all key sequences of length 1..L over <=3 keys (canonical up to key renaming) x N in {1,2,3[,4]} x 1|2 grouping columns (also tuples with a missing column: (a,a), (a,-), (-,a)) x eager|lazy feed, plus pauses of 1.5 s / 25 s of virtual time after every row without and with STATETTL=1m (sequences in which a key idles >= TTL are outside the property and skipped), also function-expression keys, one key spelt as text and as number, strategy block with a lagging consumer, GetStats / ResetStats calls after every row, a panicking synchronous sink in front of the observing one, the key written as the nested path d.x, and key tuples colliding under faulty encoders; each executed on the real engine (streamsql.New/Execute/Emit, sync sink) under the deterministic schedule with the virtual clock and compared with the per-key batching reference (ids via collect, count, first/last); " +
 			"(b) 9 fixed sequences x N explored over all schedules of producer, data processor, counting-window goroutine and result consumer with <= bound preemptions; non-trivial = at least one window result delivered (a) / reached through >=1 deviation (b)",
 		Bounds:      map[string]any{"max_len": map[string]int{"quick": 7, "thorough": 9}, "keys": 3, "N": "1..3 (4 in thorough)", "sched_bound": map[string]int{"quick": 1, "thorough": 2}},
 		Assumptions: []string{"runs in which STATETTL reaps a key are excluded (the property excludes them); the default configuration (no STATETTL) must never reap", "with the default drop strategy the window output buffer (50) and data buffer (1000) are never full inside the bounds; the block configurations fill a one-batch window output buffer on purpose", "key values contain no separator characters (that is C04's alphabet)"},
